@@ -225,17 +225,15 @@ def modInode (w : W) (i : Option Nat) (f : Inode → Inode) : W :=
 
 /-! #### frontend.c -/
 
-/-- `enqueue_block` -/
+/-- `enqueue_block`: a fragment block leaves a copy of its bytes in `fblk_in_flight` (when the processor can read
+blocks back), then the block goes to the pool -/
 def enqueueBlock (P : Params) (s : Proc) (b : Blk) : Except Err Proc :=
-  let s1 : Proc :=
-    if hasFlag b.flags blkFragmentBlock && P.byteCompare then
-      { s with fblkInFlight := (b.index, b.data) :: s.fblkInFlight }
-    else s
-  let r := poolSubmit P s1.pool b
-  if r.2 ≠ 0 then
-    let st := poolStatus P r.1
-    .error (if st.2 = 0 then .alloc else .pool st.2)
-  else .ok { s1 with pool := r.1 }
+  if (poolSubmit P s.pool b).2 ≠ 0 then
+    .error (if (poolStatus P (poolSubmit P s.pool b).1).2 = 0 then .alloc else .pool (poolStatus P (poolSubmit P s.pool b).1).2)
+  else
+    .ok { s with fblkInFlight := if hasFlag b.flags blkFragmentBlock && P.byteCompare
+                                 then (b.index, b.data) :: s.fblkInFlight else s.fblkInFlight,
+                 pool := (poolSubmit P s.pool b).1 }
 
 /-! #### block_processor.c: `load_frag_block`, `chunk_info_equals`; the hash table -/
 
